@@ -1,7 +1,7 @@
 (* C20 — Pooled buffers and objects are never visible to two owners at once.
    Statements only; every proof is `exact <lemma>`. *)
 From Coq Require Import List NArith Arith Bool.
-From RPCX Require Import Pool.Pool Pool.PoolProofs.
+From RPCX Require Import Pool.Pool Pool.PoolProofs Pool.PoolSites Pool.PoolSitesGen Pool.PoolSitesProofs.
 Import ListNotations.
 
 (* byte pools: for every configuration 0 < min <= max (< 2^64) and every size: a request routed to
@@ -52,9 +52,26 @@ Example C20_nonvacuous :
   class_size 512 3000 3 = 3000%N /\ find_get 512 4096 4097 = None /\ find_put 512 4096 511 = None.
 Proof. vm_compute. repeat split. Qed.
 
+(* the tie to the source: every syntactic control-flow path of handleRequest and handleRequestForFunction, as
+   tools/gopools2v regenerates them from server/server.go on every run (Pool/PoolSitesGen.v), uses and returns its
+   pooled argument and reply object only while it holds it and returns it at most once; and the hand model
+   handle_ops above is, for every outcome of its six conditions, the skeleton of one of those paths *)
+Theorem C20_every_handler_path_keeps_the_discipline :
+  forallb (fun p => disciplined 0 0 (snd p)) handler_paths = true.
+Proof. exact every_path_is_disciplined. Qed.
+Theorem C20_every_handler_path_is_bracketed : forall name ops,
+  In (name, ops) handler_paths -> bracketed 0 0 (skeleton ops) = true.
+Proof. exact every_path_is_bracketed. Qed.
+Theorem C20_hand_model_is_the_source_s : forall f,
+  exists name ops, In (name, ops) handler_paths /\ handle_ops f = skeleton ops.
+Proof. exact handle_ops_is_generated. Qed.
+
 Print Assumptions C20_get_fits_its_class.
 Print Assumptions C20_put_is_big_enough.
 Print Assumptions C20_get_returns_requested_length.
 Print Assumptions C20_exclusive_ownership.
 Print Assumptions C20_single_owner.
 Print Assumptions C20_handle_request_keeps_the_discipline.
+Print Assumptions C20_every_handler_path_keeps_the_discipline.
+Print Assumptions C20_every_handler_path_is_bracketed.
+Print Assumptions C20_hand_model_is_the_source_s.
